@@ -13,6 +13,8 @@ package main
 import (
 	"bufio"
 	"bytes"
+	"compress/flate"
+	"compress/zlib"
 	"encoding/base64"
 	"encoding/binary"
 	"encoding/hex"
@@ -467,6 +469,7 @@ func genC08(c *Ctx) {
 	c08GenRPM(c, add)
 	c08GenSSHWire(c, add)
 	c08GenInspect(c, add, addBig)
+	c08GenCompressed(c, add)
 
 	res := c08RunIsolated(c, cases)
 	// A CPU time just above the limit may be noise of a loaded machine: measure again (fresh
@@ -538,19 +541,47 @@ type lfield struct {
 	what       string
 }
 
-// boundary values of the property for a length/count field of the given width
-func c08Vals(f lfield) []uint64 {
+// c08OverflowVals: counts whose product with an item width w in {2,4,8,16} wraps a 32-bit
+// (bits = 32) or 64-bit (bits = 64) multiplication to a small residue, or just does not:
+// 2^bits/w, 2^bits/w + 1, 2^bits/w - 1, 2^(bits-1)/w + 1.
+func c08OverflowVals(bits uint) []uint64 {
+	var out []uint64
+	for _, lg := range []uint{1, 2, 3, 4} { // w = 2, 4, 8, 16
+		q := uint64(1) << (bits - lg)
+		out = append(out, q, q+1, q-1, q/2+1)
+	}
+	return out
+}
+
+// boundary values of the property for a length/count field of the given width, plus the
+// multiplicative-overflow values for 4-byte (and 8-byte) fields
+func c08Vals(f lfield) []uint64 { return c08ValsOpt(f, false) }
+
+// plain: only the six boundary values of the property (no multiplicative-overflow values)
+func c08ValsOpt(f lfield, plain bool) []uint64 {
 	max := uint64(1)<<(8*uint(f.width)) - 1
-	cand := []uint64{0, f.actual - 1, f.actual + 1, 1<<16 - 1, 1<<31 - 1, 1<<32 - 1}
+	if f.width >= 8 {
+		max = ^uint64(0)
+	}
+	cand := []uint64{0, 1<<16 - 1, 1<<31 - 1, 1<<32 - 1, f.actual + 1}
+	if f.actual > 0 {
+		cand = append(cand, f.actual-1)
+	}
 	if f.what == "bits" {
-		cand = append(cand, f.actual-8, f.actual+8)
+		cand = append(cand, f.actual+8)
+		if f.actual >= 8 {
+			cand = append(cand, f.actual-8)
+		}
+	}
+	if !plain && f.width == 4 {
+		cand = append(cand, c08OverflowVals(32)...)
+	}
+	if !plain && f.width == 8 {
+		cand = append(cand, 1<<63, 1<<62, 1<<61, 1<<60)
 	}
 	var out []uint64
 	seen := map[uint64]bool{}
 	for _, v := range cand {
-		if f.actual == 0 && v > 1<<40 { // actual-1 underflow
-			continue
-		}
 		if v > max {
 			v = max
 		}
@@ -589,6 +620,16 @@ func c08Corpus(c *Ctx, add func(comp, tag, name string, data []byte), addBig fun
 	add("inspect", "corpus-F25-keylen", "k.jks", jksWitness())
 	add("rpm", "corpus-F25-int32count", "p.rpm", rpmWitness(0x20000000))
 	add("inspect", "corpus-F25-int32count", "p.rpm", rpmWitness(0x20000000))
+	// seeded change (round 2): a guard that multiplies count by the item width in 32 bits lets
+	// these pass (2^30+1 INT32 items = 4 octets mod 2^32) and go-rpm asks for 4 GiB
+	for _, tc := range []struct {
+		typ uint32
+		cnt uint64
+	}{{4, 1<<30 + 1}, {5, 1<<29 + 1}, {3, 1<<31 + 1}, {4, 1 << 30}, {5, 1 << 29}} {
+		w := rpmTypeCount(tc.typ, tc.cnt)
+		add("rpm", fmt.Sprintf("corpus-count-times-width-wraps-t%d-%d", tc.typ, tc.cnt), "p.rpm", w)
+		add("inspect", fmt.Sprintf("corpus-rpm-count-times-width-wraps-t%d-%d", tc.typ, tc.cnt), "p.rpm", w)
+	}
 	// C08-A1: armor header line of 1 MiB (continuation chunks re-copied: quadratic allocation)
 	addBig("armor", "corpus-A1-longheader", "k.asc", &c08Recipe{prefix: []byte("-----BEGIN PGP PUBLIC KEY BLOCK-----\nVersion: "), pattern: []byte("x"), count: 1<<20 - 100,
 		suffix: []byte("\n\nAAAA\n-----END PGP PUBLIC KEY BLOCK-----\n")})
@@ -858,12 +899,203 @@ func rawPGPKey(r *Rng) []byte {
 	return b
 }
 
-func armorPGP(raw []byte) []byte {
+func armorPGP(raw []byte) []byte { return armorPGPAs("PGP PUBLIC KEY BLOCK", raw) }
+
+func armorPGPAs(blockType string, raw []byte) []byte {
 	var out bytes.Buffer
-	w, _ := armor.Encode(&out, "PGP PUBLIC KEY BLOCK", nil)
+	w, _ := armor.Encode(&out, blockType, nil)
 	w.Write(raw)
 	w.Close()
 	return out.Bytes()
+}
+
+// c08FixedSecretKey: a complete unprotected secret key block (1024-bit RSA, one user ID, one
+// subkey) written once by openpgp.NewEntity / SerializePrivate; embedded for the same reason
+// as c08FixedKey.
+const c08FixedSecretKey = "" +
+	"xcEYBGq+J80BBADlFKOS7x0bXnzjeA1yMstOjWLTCsdesm2glpU5RFd+DDOan+QPRVq/n9hrjJqh4SV3ZHIPDMpHdtcE6rllzo2l" +
+	"RQtQ5LY7maIfN3ywtSIFXBpxPXtwfo0x9S8ywvN9a5vFUSogQ1Zm7xfxE4Sqr/k3tyYWytDPJpFVuCqMkFBYSwARAQABAAP+ImJ3" +
+	"rv1fJBWJr2b8tbB0HcVRGRZcGJW1qM4RdfgRHeVc9Y+cXsJtPagThwkiyLuPsR0Nlb64ugNXgPBuhZ58WhKQRdRFiVQeem5gqg+2" +
+	"tbMo9BakOaX7T94BkHgI1qJiLdQ+QWIkLpgPC18k76Rn509QmweEYMHGdUZ5ALRWwCECAPR/eg7hEWDCNITQAq3o5y5no3XRNWhu" +
+	"VxtPVIG16P344DaOctyWoXyXlbzY4gd4FOukBeZqNOdhINF2/XivC5ECAO/bfTGcSVR9yo/TXckpT3jC4VxVQRe1g0wir5qZgYC+" +
+	"MFQyjKBnbRAWWVsWTnCQcg8YWMSQBqI0a9cNumnoIBsB/2yP3qTEF3UbWHxxpiyRerzqXu04mB/+x5Y+rKDRBvcgOkhq0pac7jKQ" +
+	"8PHk0g5IRCXmClnlAwBWPFlVwyjs0w6aec0rVGVzdCBVc2VyIChjMDggc2VjcmV0KSA8c2VjcmV0QGV4YW1wbGUub3JnPsKiBBMB" +
+	"CAAWBQJqvifNCRDL+0YMb1rm1QIbAwIZAQAAEW0EABEEP1P/oBNK7srM3dnMwt3aR5JE9CpgmbIbAgUAlRuqxtLuATN+GbumGe6Q" +
+	"/U6LhYWR/J8Zwse9MKD29++or/FkuGNLR0smJgw9WmG8eHKMOMS88qyQgiwShWz3IwJA5hFN5R3yPmnAzDjLWzkwJx2G/im/HfmR" +
+	"K/x+MVaTkrTIx8EYBGq+J80BBADWrM88pMRwevBqMSyEI8qDiBEeE4GwNmOKlfltS90FKAiA4OOe/Kz52/Yiit4hp8NoqnGFKgJT" +
+	"dlQyvF+Yy++X/2iR1FV9zhvriSJ2CwigzGmyOjtjNS+SIVi+82+DkDukyBQ52/kibUhC67ZiyQIDbXm95mzv3o15EH1kub/twwAR" +
+	"AQABAAP/d07tki+keTrqOKqBqiLWH0nU8Zk3v35Kzi/Rwvuhp4b7St0xxB975xVncwUotR2uzZHEq5SQXGBsJRJqMtpMmnEsMJr8" +
+	"RoA3ZgWXzCNHMvjN9Ow2HSL+Evx2rUAVSV+s7TiZfNGoy9/yy13Q3GddyEYDs60BtHThb+isLt9fFMECAPkBqmAFQLOUgv1zDGJX" +
+	"gkq7eBimXtKUc4e59+m6D9i8WtsZi7PZGBOR41Gt3ua5uEiWQIptpoDIu17BuCwRC+MCANy0TcY+7IvWJbRVGudesaJ55tBYnI1R" +
+	"Gi6wyypU2Ud9D7ubGnyDKPRV09Bngtz5fDYvnind+aM5pBMT2Z+c/KECALUhZANB6Ckp5/aZ8ThQYT77ACt/MJcNAe+484wyjSZH" +
+	"406peDX1tIbH3t1lWASrbfI5Z2uUSsTCco6JoQkW+myl1MKfBBgBCAATBQJqvifNCRDL+0YMb1rm1QIbDAAALGgEAIdP7SWguwxX" +
+	"ImuYX9Ai2BiMq02wcbUxPkzplcJ96aHG6tA9YF1qvXcdce/+smRGnXcNEBxUV02BtUL0hm/GV4Mg6m1UD5+TVgrN8o977AK06Mj1" +
+	"EL4gjoISqIvUXS3JMtMZBsU2WjzE+K8edCexRiFN6JHnoilqjLyRYasCcnL9"
+
+func rawPGPSecretKey() []byte {
+	b, err := base64.StdEncoding.DecodeString(c08FixedSecretKey)
+	if err != nil {
+		fmt.Fprintln(os.Stderr, "c08FixedSecretKey:", err)
+		os.Exit(1)
+	}
+	return b
+}
+
+// pgpSplitPackets cuts a well-formed stream of definite-length packets into its packets.
+func pgpSplitPackets(d []byte) [][]byte {
+	var out [][]byte
+	p := 0
+	for p < len(d) {
+		start := p
+		t := d[p]
+		p++
+		n := 0
+		if t&0x40 == 0 {
+			w := 1 << uint(t&3)
+			if t&3 == 3 || p+w > len(d) {
+				return append(out, d[start:])
+			}
+			for i := 0; i < w; i++ {
+				n = n<<8 | int(d[p+i])
+			}
+			p += w
+		} else {
+			if p >= len(d) {
+				return append(out, d[start:])
+			}
+			b := d[p]
+			switch {
+			case b < 192:
+				n, p = int(b), p+1
+			case b < 224 && p+2 <= len(d):
+				n, p = (int(b)-192)<<8+int(d[p+1])+192, p+2
+			case b == 255 && p+5 <= len(d):
+				n, p = int(binary.BigEndian.Uint32(d[p+1:])), p+5
+			default:
+				return append(out, d[start:])
+			}
+		}
+		if p+n > len(d) {
+			return append(out, d[start:])
+		}
+		p += n
+		out = append(out, d[start:p])
+	}
+	return out
+}
+
+// pgpNewPacket: new-format packet with a five-octet length
+func pgpNewPacket(tag byte, body []byte) []byte {
+	out := []byte{0xC0 | tag, 255, byte(len(body) >> 24), byte(len(body) >> 16), byte(len(body) >> 8), byte(len(body))}
+	return append(out, body...)
+}
+
+// pgpCompressedPacket: compressed data packet (tag 8), algorithm 1 (ZIP = raw DEFLATE) or 2 (ZLIB)
+func pgpCompressedPacket(algo byte, inner []byte) []byte {
+	var buf bytes.Buffer
+	buf.WriteByte(algo)
+	if algo == 1 {
+		w, _ := flate.NewWriter(&buf, flate.DefaultCompression)
+		w.Write(inner)
+		w.Close()
+	} else {
+		w := zlib.NewWriter(&buf)
+		w.Write(inner)
+		w.Close()
+	}
+	return pgpNewPacket(8, buf.Bytes())
+}
+
+// c08GenCompressed: key blocks that contain a compressed data packet whose content is huge and
+// highly compressible.  The 128 MB read cap covers only the compressed bytes: inspection must
+// not inflate the packet (ReadEntity does not look inside compressed packets).
+func c08GenCompressed(c *Ctx, add func(comp, tag, name string, data []byte)) {
+	n := 16 << 20
+	if c.Thorough() {
+		n = 96 << 20
+	}
+	fill := bytes.Repeat([]byte("a"), n)
+	inner := map[string]func() []byte{
+		"userid": func() []byte { return pgpNewPacket(13, fill) },
+		"userattr": func() []byte {
+			l := n + 1
+			return pgpNewPacket(17, append([]byte{255, byte(l >> 24), byte(l >> 16), byte(l >> 8), byte(l), 1}, fill...))
+		},
+		"literal": func() []byte { return pgpNewPacket(11, append([]byte{'b', 0, 0, 0, 0, 0}, fill...)) },
+	}
+	blobs := map[string][]byte{}
+	blob := func(algo byte, content string) []byte {
+		k := fmt.Sprintf("%d-%s", algo, content)
+		if b, ok := blobs[k]; ok {
+			return b
+		}
+		var b []byte
+		if content == "nested" {
+			b = pgpCompressedPacket(algo, pgpCompressedPacket(3-algo, inner["userid"]()))
+		} else {
+			b = pgpCompressedPacket(algo, inner[content]())
+		}
+		blobs[k] = b
+		return b
+	}
+	keys := []struct {
+		name, blockType string
+		packets         [][]byte
+	}{
+		{"public", "PGP PUBLIC KEY BLOCK", pgpSplitPackets(rawPGPKey(c.R))},
+		{"secret", "PGP PRIVATE KEY BLOCK", pgpSplitPackets(rawPGPSecretKey())},
+	}
+	place := func(pk [][]byte, pos string, b []byte) []byte {
+		at := map[string]int{"before": 0, "between": 1, "after-uid": 2, "after": len(pk)}[pos]
+		if at > len(pk) {
+			at = len(pk)
+		}
+		var out []byte
+		for i, p := range pk {
+			if i == at {
+				out = append(out, b...)
+			}
+			out = append(out, p...)
+		}
+		if at == len(pk) {
+			out = append(out, b...)
+		}
+		return out
+	}
+	emit := func(key int, pos string, algo byte, content string, withInspect bool) {
+		k := keys[key]
+		d := place(k.packets, pos, blob(algo, content))
+		tag := fmt.Sprintf("compressed-%s-%s-alg%d-%s-%dM", k.name, pos, algo, content, n>>20)
+		add("pgpread", tag, "", d)
+		if withInspect {
+			add("inspect", "pgp-"+tag, "k.asc", armorPGPAs(k.blockType, d))
+		}
+	}
+	contents := []string{"userid", "userattr", "literal", "nested"}
+	if c.Thorough() {
+		for key := range keys {
+			for _, pos := range []string{"before", "between", "after-uid", "after"} {
+				for _, algo := range []byte{1, 2} {
+					for _, ct := range contents {
+						emit(key, pos, algo, ct, true)
+					}
+				}
+			}
+		}
+		return
+	}
+	// quick tier: every content and algorithm once, every position and both key kinds for the user ID
+	for _, algo := range []byte{1, 2} {
+		for _, ct := range contents {
+			emit(0, "between", algo, ct, algo == 1 && ct == "userid")
+		}
+	}
+	for _, pos := range []string{"before", "after-uid", "after"} {
+		emit(0, pos, 1, "userid", false)
+	}
+	for _, pos := range []string{"before", "between", "after"} {
+		emit(1, pos, 2, "userid", pos == "between")
+	}
 }
 
 func c08GenPGP(c *Ctx, add func(comp, tag, name string, data []byte)) {
@@ -1283,7 +1515,10 @@ func c08GenJKS(c *Ctx, add func(comp, tag, name string, data []byte)) {
 			if f.what == "type" || (!c.Thorough() && fi > 9) {
 				continue
 			}
-			for _, v := range c08Vals(f) {
+			// quick tier: only the first key length gets the multiplicative-overflow values
+			// (each is a request of hundreds of megabytes by the library)
+			plain := !c.Thorough() && !(f.what == "keylen" && short == "keystore" && f.off < 64)
+			for _, v := range c08ValsOpt(f, plain) {
 				w := setBE(d, f, v)
 				if jksReachesSecretKey(w) {
 					continue // Java object stream reader: outside the model
@@ -1352,6 +1587,20 @@ func rpmWitness(count uint32) []byte {
 	return d
 }
 
+// rpmTypeCount: the unsigned.rpm fixture with the first main-header index entry's type and
+// count replaced
+func rpmTypeCount(typ uint32, cnt uint64) []byte {
+	d := fixture("rpm/unsigned.rpm")
+	for _, f := range rpmHeaderFields(d) {
+		if strings.Contains(f.what, "h1-count-t") {
+			w := setBE(d, f, cnt)
+			binary.BigEndian.PutUint32(w[f.off-8:], typ)
+			return w
+		}
+	}
+	return d
+}
+
 func c08GenRPM(c *Ctx, add func(comp, tag, name string, data []byte)) {
 	fxs := []string{"rpm/unsigned.rpm"}
 	if c.Thorough() {
@@ -1386,7 +1635,7 @@ func c08GenRPM(c *Ctx, add func(comp, tag, name string, data []byte)) {
 		// the entry type changed as well: integer types with a count far beyond the store
 		fs := rpmHeaderFields(d)
 		for _, typ := range []uint32{1, 2, 3, 4, 5, 6, 7, 8, 9, 0, 10} {
-			for _, cnt := range []uint64{1, 1<<16 - 1, 1<<28 + 1} {
+			for _, cnt := range append([]uint64{1, 1<<16 - 1, 1<<28 + 1}, c08OverflowVals(32)...) {
 				for _, f := range fs {
 					if strings.Contains(f.what, "h1-count-t") {
 						w := setBE(d, f, cnt)
@@ -1579,6 +1828,16 @@ func c08GenInspect(c *Ctx, add func(comp, tag, name string, data []byte), addBig
 	}
 	if !c.Thorough() {
 		rep("pem-unterminated-begin-one-end-512k", "p.pem", "", "-----BEGIN A-----\n", "-----END B-----\n", 512<<10)
+	}
+	// PEM inside PEM (the decoded body of a block is PEM text again), a few levels and 1 MiB wide
+	{
+		d := fixture("x509/pem/rsa-512.pub")
+		for lvl := 1; lvl <= 4; lvl++ {
+			d = pem.EncodeToMemory(&pem.Block{Type: "CERTIFICATE", Bytes: d})
+			add("inspect", fmt.Sprintf("pem-inside-pem-%d", lvl), "p.pem", d)
+		}
+		many := bytes.Repeat(fixture("x509/pem/rsa-512.pub"), (M*5/8)/len(fixture("x509/pem/rsa-512.pub")))
+		add("inspect", "pem-inside-pem-wide-1024k", "p.pem", pem.EncodeToMemory(&pem.Block{Type: "PUBLIC KEY", Bytes: many}))
 	}
 	// every fixture of the repository, whole
 	for _, s := range allFixtures() {
